@@ -1,4 +1,5 @@
 import Modbus.Lemmas.RspCodec
+import Modbus.Lemmas.Wf
 /-
 C03 (response half) — the wire format of responses and exception responses conforms to the Modbus
 Application Protocol v1.1b3, judged against the independent `Spec/Wire.lean` (not against the
@@ -50,6 +51,31 @@ theorem rsp_pdu_encode_conforms_partial {r : Response} {m : Spec.RspMeaning} (hb
   obtain ⟨he, hi⟩ := rsp_conforms_partial hb hf hn
   have := ResponsePdu.encode_eq (.ok r) buf ⟨he, hb.image_pos⟩
   simpa only [ResponsePdu.image, hi] using this
+
+/-- **every well-formed response conforms** (Write Single Coil excepted, open finding D12) — no `BuiltRsp`,
+    no hypothesis on the raw padding bits of a coil container: `r.Wf` (the payload container, wherever it
+    came from, holds the bytes its count promises), `r.Implemented` (a kind `encode` implements,
+    `ReadExceptionStatus` included), `r.CountFits`.  With `m` the meaning of `r`: encodable, the wire image is
+    the specification's PDU of `m` (padding bits of the last coil byte zero), and the encoder writes exactly
+    that into every large-enough buffer. -/
+theorem rsp_conforms_any_partial (r : Response) (hw : r.Wf) (hi : r.Implemented) (hf : r.CountFits)
+    (m : Spec.RspMeaning) (hm : r.sem = some m) (hn : ∀ a, m ≠ .writeSingleCoil a) :
+    r.Encodable ∧ r.image = Spec.rspBytes m ∧
+    ∀ buf : Bytes, (Spec.rspBytes m).length ≤ buf.length →
+      r.encode buf = .ok ((Spec.rspBytes m).length, Spec.rspBytes m ++ buf.drop (Spec.rspBytes m).length) := by
+  have hm' : r.meaning = some m := by rw [← hw.sem_eq]; exact hm
+  have himg := hw.image_eq_spec hm' hn
+  refine ⟨(hw.encodable_iff hi).mpr hf, himg, fun buf hl => ?_⟩
+  rw [hw.encode_eq hi buf, if_pos hf, himg, if_neg (by omega)]
+
+/-- non-vacuity: the coil container decoded from the REQUEST `0F 00 01 00 03 01 FF` (three coils, raw byte
+    `FF`), placed in a Read Coils response: `01 01 07` on the wire -/
+example : (Response.readCoils ⟨[0xFF], 3⟩).Wf ∧ (Response.readCoils ⟨[0xFF], 3⟩).Implemented ∧
+    (Response.readCoils ⟨[0xFF], 3⟩).CountFits ∧
+    (Response.readCoils ⟨[0xFF], 3⟩).sem = some (.readCoils [true, true, true]) ∧
+    Spec.rspBytes (.readCoils [true, true, true]) = [0x01, 0x01, 0x07] ∧
+    (Response.readCoils ⟨[0xFF], 3⟩).encode [0, 0, 0, 0x55] = .ok (3, [0x01, 0x01, 0x07, 0x55]) := by
+  refine ⟨by decide +kernel, trivial, by decide +kernel, by decide +kernel, by decide +kernel, by decide +kernel⟩
 
 /-- D12: the crate's Write Single Coil response is not the specification's (by evaluation) -/
 theorem rsp_write_single_coil_defect_witness :
@@ -104,7 +130,8 @@ theorem exc_code_complete (code : UInt8) (h : code ∈ Spec.excCodes) : ∃ k : 
 /-- every spec-conformant response PDU within the count-field range is decoded to the meaning the
     specification assigns it: registers and fixed fields exactly; coil reads with the count rounded up
     to a whole byte and the padding coils off (the PDU carries a byte count, not a coil count);
-    custom responses with any code byte that is not one of the nine modelled kinds (including
+    Read Exception Status `07 s` to `ReadExceptionStatus(s)`;
+    custom responses with any code byte that is not one of the ten modelled kinds (including
     bytes ≥ 0x80), same code byte and data.  Includes the specification's five-byte Write Single Coil
     response. -/
 theorem rsp_decodes_spec (m : Spec.RspMeaning) (hf : m.fits) (hs : InScopeRsp m) :
@@ -115,6 +142,34 @@ theorem rsp_decodes_spec (m : Spec.RspMeaning) (hf : m.fits) (hs : InScopeRsp m)
 theorem rsp_decodes_spec_write_single_coil (a : UInt16) :
     Response.decode (Spec.rspBytes (.writeSingleCoil a)) = .ok (.writeSingleCoil a) :=
   Response.decode_spec_writeSingleCoil a
+
+/-- the specification's echo of a Write Single Coil **OFF** request, `05 hi lo 00 00` (which
+    `Spec.rspBytes`, carrying no coil value, does not produce): accepted for every address, decoded to
+    `WriteSingleCoil(a)` -/
+theorem rsp_decodes_wsc_off_echo (a : UInt16) :
+    Response.decode [0x05, Spec.hi a, Spec.lo a, 0x00, 0x00] = .ok (.writeSingleCoil a) := by
+  rw [Response.decode_writeSingleCoil, Rsp.rd16_hi_lo]
+
+/-- … and the **ON** echo `05 hi lo FF 00`, spelled out byte by byte -/
+theorem rsp_decodes_wsc_on_echo (a : UInt16) :
+    Response.decode [0x05, Spec.hi a, Spec.lo a, 0xFF, 0x00] = .ok (.writeSingleCoil a) := by
+  rw [Response.decode_writeSingleCoil, Rsp.rd16_hi_lo]
+
+/-- both echoes are the echo of the corresponding REQUEST bytes (`Spec.reqBytes`), for every address
+    and both coil states: the response decoder accepts the request's own PDU -/
+theorem rsp_decodes_wsc_request_echo (a : UInt16) (on : Bool) :
+    Response.decode (Spec.reqBytes (.writeSingleCoil a on)) = .ok (.writeSingleCoil a) := by
+  cases on
+  · exact rsp_decodes_wsc_off_echo a
+  · exact rsp_decodes_wsc_on_echo a
+
+/-- the decoder does not look at the echoed value at all: any two value bytes (and any further bytes) -/
+theorem rsp_decodes_wsc_any_value (a : UInt16) (rest : Bytes) :
+    Response.decode (0x05 :: Spec.hi a :: Spec.lo a :: rest) = .ok (.writeSingleCoil a) := by
+  rw [Response.decode_writeSingleCoil, Rsp.rd16_hi_lo]
+
+example : Response.decode [0x05, 0x12, 0x34, 0x00, 0x00] = .ok (.writeSingleCoil 0x1234) := by decide +kernel
+example : Response.decode [0x05, 0x12, 0x34, 0xFF, 0x00] = .ok (.writeSingleCoil 0x1234) := by decide +kernel
 
 /-- … and the crate's own three-byte form -/
 theorem rsp_decodes_own_write_single_coil (a : UInt16) :
@@ -170,7 +225,7 @@ example : ∃ c, Coils.fromBools [true, false, true, true, false, false, true, t
     BuiltRsp (.readCoils c) (.readCoils [true, false, true, true, false, false, true, true, true]) ∧
     (Response.readCoils c).encode (List.replicate 5 0x55) = .ok (4, [0x01, 0x02, 0xCD, 0x01, 0x55]) ∧
     Spec.rspBytes (.readCoils [true, false, true, true, false, false, true, true, true]) = [0x01, 0x02, 0xCD, 0x01] :=
-  ⟨⟨[0xCD, 0x01, 0xAA], 9⟩, by decide +kernel, .readCoils (t := [0xFF, 0xFF, 0xAA]) (by decide +kernel),
+  ⟨⟨[0xCD, 0x01], 9⟩, by decide +kernel, .readCoils (t := [0xFF, 0xFF, 0xAA]) (by decide +kernel),
     by decide +kernel, by decide +kernel⟩
 
 example : (Spec.RspMeaning.readCoils [true, false, true, true, false, false, true, true, true]).fits := by
@@ -181,8 +236,8 @@ example : ∃ d, Data.fromWords [0x1234, 0xABCD] [9, 9, 9, 9, 0xEE, 0xEE] = .ok 
       .ok (6, [0x03, 0x04, 0x12, 0x34, 0xAB, 0xCD, 0x55]) :=
   ⟨⟨[0x12, 0x34, 0xAB, 0xCD], 2⟩, by decide +kernel, by decide +kernel⟩
 
-example : InScopeRsp (.custom 0x2B [1, 2, 3]) := by simp [InScopeRsp, modelledReqCodes]
-example : InScopeRsp (.custom 0x91 []) := by simp [InScopeRsp, modelledReqCodes]
+example : InScopeRsp (.custom 0x2B [1, 2, 3]) := by show (0x2B : UInt8) ∉ modelledRspCodes; decide
+example : InScopeRsp (.custom 0x91 []) := by show (0x91 : UInt8) ∉ modelledRspCodes; decide
 example : Response.decode (Spec.rspBytes (.custom 0x91 [7])) = .ok (.custom (.custom 0x91) [7]) := by decide +kernel
 
 /-- a custom response carrying a modelled code is out of scope: its bytes ARE a dedicated kind -/
@@ -191,6 +246,17 @@ example : Response.decode (Spec.rspBytes (.custom 0x06 [0, 1, 0, 2])) = .ok (.wr
 
 example : Response.decode (Spec.rspBytes (.readCoils [true, false, true, true, false])) =
     .ok (.readCoils ⟨[0x0D], 8⟩) := by decide +kernel
+
+/-- Read Exception Status conforms on both sides: `07 s` out, `ReadExceptionStatus(s)` back -/
+example : BuiltRsp (.readExceptionStatus 0x5A) (.readExceptionStatus 0x5A) ∧
+    (Spec.RspMeaning.readExceptionStatus 0x5A).fits ∧ InScopeRsp (.readExceptionStatus 0x5A) ∧
+    (Response.readExceptionStatus 0x5A).image = Spec.rspBytes (.readExceptionStatus 0x5A) ∧
+    Response.decode (Spec.rspBytes (.readExceptionStatus 0x5A)) = .ok (.readExceptionStatus 0x5A) :=
+  ⟨.readExceptionStatus _, trivial, trivial, rfl, by decide +kernel⟩
+
+/-- … and a custom response carrying 0x07 is out of scope (decoded as the dedicated kind) -/
+example : Response.decode (Spec.rspBytes (.custom 0x07 [0x5A])) = .ok (.readExceptionStatus 0x5A) := by
+  decide +kernel
 
 example : Spec.excBytes 0x03 (Exception.illegalDataAddress).val = [0x83, 0x02] := by decide
 example : ExceptionResponse.decode [0x83, 0x02] = .ok ⟨.readHoldingRegisters, .illegalDataAddress⟩ := by decide +kernel
